@@ -285,11 +285,15 @@ pub fn render_tx_table_model(
                     acb_of_sale = if is_positive(&*d.pre_status.share_balance) {
                         match d.pre_status.total_acb {
                             Some(pre_total_acb) => {
-                                let pre_acb_per_share =
-                                    *pre_total_acb / *d.pre_status.share_balance;
-                                Some(ph.dollar_str(
-                                    pre_acb_per_share * *buy_sell_specs.shares,
-                                ))
+                                // checked: a vanishingly small share balance (left by
+                                // decimal rounding) makes the per-share figure overflow
+                                pre_total_acb
+                                    .checked_div(*d.pre_status.share_balance)
+                                    .and_then(|pre_acb_per_share| {
+                                        pre_acb_per_share
+                                            .checked_mul(*buy_sell_specs.shares)
+                                    })
+                                    .map(|v| ph.dollar_str(v))
                             }
                             None => None,
                         }
@@ -354,7 +358,10 @@ pub fn render_tx_table_model(
         let acb_per_share: Option<String> =
             if is_positive(&*d.post_status.share_balance) {
                 if let Some(post_acb) = d.post_status.total_acb {
-                    Some(ph.dollar_str(*post_acb / *d.post_status.share_balance))
+                    // checked, as above: no per-share figure is shown if it overflows
+                    post_acb
+                        .checked_div(*d.post_status.share_balance)
+                        .map(|v| ph.dollar_str(v))
                 } else {
                     None
                 }
